@@ -305,6 +305,7 @@ class Sim:
                 src = self.fetch(wid, r["obj"], r["state"], r["locations"], r["scope"], params)
                 r["fetched_from"] = src
         self.log("door." + action, worker=wid, cls=test_class(name), label=short_class(name),
+                 name_head=name.split(".vms.")[0],
                  reqs=reqs, answer=answer)
         if action == "check" and not answer:
             raise ShellCmdError("check", 1, "AssertionError")
